@@ -177,10 +177,11 @@ def parse_specs(r, thorough):
                         specs.append(dict(form="table", backoff=backoff, count=count, delay=delay,
                                           jitter=jitter, max_delay=mx))
     if not thorough:
-        base = specs[:6]
-        rest = specs[6:]
-        r.shuffle(rest)
-        specs = base + rest[:220]
+        # every accepted table, and a seeded sample of the rejected ones
+        ok = [x for x in specs if doc_parse(x)[0] == "ok"]
+        bad = [x for x in specs if doc_parse(x)[0] != "ok"]
+        r.shuffle(bad)
+        specs = ok + bad[:170]
     return specs
 
 
@@ -253,7 +254,7 @@ def doc_attempts(eff, pat, dflt):
 
 
 def check_attempt_loop(chk, binary, r, thorough):
-    nsc = 24 if thorough else 6
+    nsc = 48 if thorough else 6
     scenarios = [rig_scenario(r, i) for i in range(nsc)]
     cases = [rig.prepare(f"c07_{i}", sc) for i, sc in enumerate(scenarios)]
     results = [vlib.run_impl(binary, "backoff", [c], shards=1)[0] for c in cases]
@@ -452,6 +453,7 @@ def run(tier, seed):
     pos = 0
     jitter_bad = None
     for idx, p in jit_pols:
+        lowest = {}          # position -> smallest applied/base ratio seen over the repetitions
         for _ in range(reps):
             i = impl[pos]
             pos += 1
@@ -471,6 +473,14 @@ def run(tier, seed):
                 elif not (lo <= x <= hi):
                     jitter_bad = jitter_bad or (p, i, f"retry {k + 1}: applied delay {x} outside the "
                                                       f"model's interval [{lo}, {hi}]")
+                if base >= 1000:
+                    lowest[k] = min(lowest.get(k, 1.0), x / base)
+        # jitter is really applied by next(): the chance that `reps` (>= 25) uniform draws from
+        # (d/2, d] all exceed 0.9 d is 0.2^25 < 1e-17
+        for k, ratio in lowest.items():
+            if ratio >= 0.9:
+                jitter_bad = jitter_bad or (p, None, f"retry {k + 1}: jitter is on but {reps} applied delays were "
+                                                     f"all above 0.9 of the configured value")
     if jitter_bad:
         p, i, why = jitter_bad
         chk.violation("counterexample", "oracle:jitter-iter", dict(input=case_of(p, "delays", p["count"]),
@@ -600,6 +610,27 @@ def replay(path, seed):
         chk = vlib.Check(PROP, "quick", seed)
         ok = check_delay_lists(chk, [p], binary, "c07r")
         print("oracle:", "accepts" if ok else "rejects")
+        return 0 if ok else 1
+    if isinstance(inp, dict) and "effective_policy" in inp and "pattern" in inp:
+        eff = inp["effective_policy"]
+        n = len(inp["pattern"])
+        code = lambda ok: 0 if ok else 1
+        spec = dict(policy=None if inp.get("forced") else eff, pattern=inp["pattern"], dflt=inp["default"],
+                    default=dict(kind="exit", code=code(inp["default"])),
+                    attempts={k + 1: dict(kind="exit", code=code(ok)) for k, ok in enumerate(inp["pattern"])})
+        sc = dict(profile_retries=None, force=eff if inp.get("forced") else None, bins={"ba": {inp["test"]: spec}},
+                  leak_timeout_ms=100, threads=1)
+        case = rig.prepare("c07_replay", sc)
+        res = vlib.run_impl(binary, "backoff", [case], shards=1)[0]
+        inv = [k for k, _, _ in rig.read_log(case, "ba").get(inp["test"], [])]
+        fin = (rig.per_test(res).get(("ba", inp["test"])) or {}).get("finished")
+        rig.cleanup("c07_replay")
+        want_n = doc_attempts(eff, inp["pattern"], inp["default"])
+        delays = [int(a["delay_before_start"]) for a in fin["attempts"]] if fin else None
+        base = [0] + doc_delays(eff)[:want_n - 1]
+        ok = inv == list(range(1, want_n + 1)) and delays is not None and len(delays) == len(base) and all(
+            ((b + 1) // 2 <= x <= b) if eff["jitter"] else x == b for x, b in zip(delays, base))
+        print("impl now: invocations", inv, "delays", delays, "documented attempts", want_n, "delays", base)
         return 0 if ok else 1
     if isinstance(inp, dict) and inp.get("op") in ("jitter", "parse", "base", "delays"):
         print("impl now:", vlib.run_impl(binary, "backoff", [inp])[0])
